@@ -74,6 +74,8 @@ type Program struct {
 	Bitmasks        Bitmask     // k
 	JumpTable       JumpTable   // j, z, |j|
 
+	zeroExtended ProgramCode // c followed by zero bytes (A.4), see operandCode
+
 	Instrs     []InstrMeta  // pre-decoded instruction metadata (flat array)
 	BlockAt    []*BlockMeta // PC-indexed: BlockAt[pc] non-nil if pc starts a basic block
 	InstrIdxAt []int32      // PC-indexed: InstrIdxAt[pc] = index into Instrs[], -1 if not an instruction start
